@@ -34,7 +34,9 @@ RULE = ("order/selection: every pair of named logics (all six relations), every 
         "logics against every module-level set and random sub-lists (with and without twins); non-trivial = the two "
         "logics differ / at least two candidates lie above the target.  detection: hand-written shapes for every "
         "feature the property lists (string from integer, sort bound only by a quantifier, division by a variable, "
-        "constant arrays inside stores, custom-sort function signatures, ...) plus type-directed random formulas over "
+        "constant arrays inside stores, custom-sort function signatures, quantifiers nested inside terms: ITE conditions "
+        "below every relation kind, Boolean arguments of functions, Boolean array indices/elements, ...) plus "
+        "type-directed random formulas (12% pushed below a relation the same way) over "
         "random theory mixes; non-trivial = the formula uses a non-Boolean feature; distinct = distinct "
         "(feature set, detected logic, root operator)")
 ASSUMPTIONS = [
